@@ -184,3 +184,37 @@ def gen_coalesce():
                     for h in heads:
                         for t in tails:
                             yield [new_line(cl, mds, 8, 8, 0, 0, mf, mt)] + h + t + ["bld.flush"]
+
+
+def gen_initial_tail():
+    """small scope: datagrams whose padding for the Initial they carry is appended after the last
+    packet (RFC 9000 14.1; no 1-RTT packet to pad inside): Initial-only (client first flight,
+    Initial ACK+CRYPTO retransmission, ACK-only client Initial, server Initial) and Initial +
+    Handshake, x flight budgets around 1200 .. max_datagram_size x max_datagram_size x role"""
+    heads = [
+        ["bld.start_packet I", "bld.start_frame 6 20", "bld.push @cap"],
+        ["bld.start_packet I", "bld.start_frame 6 20", "bld.push @half"],
+        ["bld.start_packet I", "bld.start_frame 6 20", "bld.push @all"],
+        ["bld.start_packet I", "bld.start_frame 2 64", "bld.push @cap"],
+        ["bld.start_packet I", "bld.start_frame 2 64", "bld.push @cap", "bld.start_frame 6 20", "bld.push @cap"],
+        ["bld.start_packet I", "bld.start_frame 1 1"],
+    ]
+    tails = [
+        [],
+        ["bld.start_packet H", "bld.start_frame 6 20", "bld.push @cap"],
+        ["bld.start_packet H", "bld.start_frame 6 20", "bld.push @half"],
+        ["bld.start_packet H", "bld.start_frame 2 64", "bld.push @cap"],
+        ["bld.start_packet H", "bld.start_frame 2 64", "bld.push @cap", "bld.start_frame 6 20", "bld.push @cap"],
+        ["bld.start_packet H", "bld.start_frame 6 20", "bld.push @cap", "bld.start_packet O"],
+        # the Initial datagram followed by a second datagram in the same flush
+        ["bld.start_packet H", "bld.start_frame 6 20", "bld.push @all", "bld.start_packet H", "bld.start_frame 6 20", "bld.push @cap"],
+    ]
+    for mds in (1200, 1280, 1350, 1500):
+        mid = (1200 + mds) // 2
+        grid = sorted({None, 1199, 1200, 1201, mid, mds - 1, mds, mds + 1, 2 * mds - 40}, key=lambda v: -1 if v is None else v)
+        for cl in (False, True):
+            for mf in grid:
+                for mt in grid:
+                    for h in heads:
+                        for t in tails:
+                            yield [new_line(cl, mds, 8, 8, 0, 0, mf, mt)] + h + t + ["bld.flush"]
